@@ -148,8 +148,11 @@ class LockProxy:
 class TableProxy:
     """wraps the dict / lrucache of a MemoryCache: every access is logged with the lock state"""
 
+    keep = []       # every raw table wrapped during a schedule stays alive, so that `id(table)` identifies it (no address is reused)
+
     def __init__(self, table, lock, log, ctrl):
         self._t, self._lock, self._log, self._ctrl = table, lock, log, ctrl
+        TableProxy.keep.append(table)
 
     def _note(self, what):
         tid = self._ctrl.tid()
@@ -232,6 +235,7 @@ def _run_schedule(desc, plans, schedule, roots, gated_keys=False):
     world = SymWorld()
     ctrl = Controller(schedule, len(plans))
     LockProxy.registry = {}
+    TableProxy.keep = []
     log = []
     # gate at the entry of every user function
     orig_fn = world.fn
